@@ -812,9 +812,11 @@ impl SpiDevice<u8> for SimSpi {
         let mut c = self.0.borrow_mut();
         for op in operations.iter_mut() {
             match op {
+                // what goes out on MOSI while only reading is up to the HAL ("typically 0x00, 0xFF, or configurable"): this one
+                // sends zeros - a driver that needs the line high has to say so (transfer with 0xFF)
                 Operation::Read(buf) => {
                     for b in buf.iter_mut() {
-                        *b = c.exchange(0xFF)?;
+                        *b = c.exchange(0x00)?;
                     }
                 }
                 Operation::Write(buf) => {
@@ -825,7 +827,7 @@ impl SpiDevice<u8> for SimSpi {
                 Operation::Transfer(rd, wr) => {
                     let n = rd.len().max(wr.len());
                     for i in 0..n {
-                        let o = if i < wr.len() { wr[i] } else { 0xFF };
+                        let o = if i < wr.len() { wr[i] } else { 0x00 };
                         let r = c.exchange(o)?;
                         if i < rd.len() {
                             rd[i] = r;
